@@ -306,7 +306,7 @@ def gen_local(seed, tier):
                 prog.append({"op": "zero", "calc": cid, "shot": offzero_shot, "dist": [100.0, "Yard"], "cap0": True})
         else:
             c = gen.pick(rng, live)
-            k = gen.pick(rng, ["fire", "fire", "zero", "trace", "gravity", "windy", "lob"])
+            k = gen.pick(rng, ["fire", "fire", "zero", "trace", "gravity", "windy", "lob", "tiny"])
             if k == "fire":
                 prog.append({"op": "fire", "calc": c, "shot": gen.pick(rng, shots), "range": simgen.gen_range(rng, 50, 300),
                              "step": [50.0, "Yard"]})
@@ -321,6 +321,14 @@ def gen_local(seed, tier):
                 live.append(cid)
                 prog.append({"op": "fire", "calc": cid, "shot": lob_shot, "range": [3.0, "Yard"], "step": [1000.0, "Yard"],
                              "extra": True, "time_step": 1e-9, "trace": True, "lob": True})
+            elif k == "tiny":
+                # a maximum step far below anything usual, over a very short range (the bound must hold at any size)
+                mx = gen.pick(rng, [0.004, 0.002, 0.008])
+                w["calcs"].append({"config": {"max_calc_step_size_feet": mx}})
+                cid = len(w["calcs"]) - 1
+                prog.append({"op": "new_calc", "calc": cid})          # (not added to the pool of calculators for ordinary shots)
+                prog.append({"op": "fire", "calc": cid, "shot": trace_shot, "range": [0.5, "Foot"], "step": [1000.0, "Yard"],
+                             "extra": True, "time_step": 1e-12, "trace": True})
             elif k == "windy":
                 prog.append({"op": "fire", "calc": c, "shot": windy_shot, "range": [gen.pick(rng, [20.0, 40.0]), "Yard"],
                              "step": [1000.0, "Yard"], "extra": True, "time_step": 1e-9, "trace": True, "wind": windy})
